@@ -26,6 +26,7 @@ static bool buildStored(const json& init, Ctx& ctx, StoredFile& sf, bool keepLog
 	SaveSpec sp;
 	sp.map = &wm;
 	sp.keepLog = keepLog;
+	sp.raw = !jbool(init, "store_sorted", false); // stored as the default save leaves it (sorted: a shape precedes its data) or in the order it was built
 	SaveOut so = saveNif(nif, sp);
 	if (so.rc != 0) return false;
 	sf.bytes = so.bytes;
